@@ -39,7 +39,7 @@ def main():
             out['demo_clean_exit'] = r.returncode
         for p in props:
             t0 = time.time()
-            r = sh(['/venv/bin/python', '-m', 'vf.run', p, '--tier', tier], cwd='/verif',
+            r = sh(['/venv/bin/python', '-m', 'vf.run', p, '--tier', tier], cwd=os.environ.get('VERIF_HOME', '/verif'),
                    env=dict(os.environ, VERIF_REPO=wt), timeout=7200)
             lines = [l for l in r.stdout.splitlines() if l.startswith(('VIOLATION', 'KNOWN', '  sig', '  '))][:6]
             out[p] = {'exit': r.returncode, 'wall': round(time.time() - t0, 1), 'lines': lines,
